@@ -47,6 +47,10 @@ REQUIRED = [
     'EdbVerif.C17.C17_used_tx_counterexample_status2', 'EdbVerif.C17.C17_intx_counterexample_none_state',
     'EdbVerif.C17.C17_repaired_falsy_merge', 'EdbVerif.C17.C17_repaired_partial_sync',
     'EdbVerif.C17.C17_repaired_last_state',
+    'EdbVerif.C17.C17_remote_used_current', 'EdbVerif.C17.C17_remote_used_partial',
+    'EdbVerif.C17.C17_remote_belief_partial', 'EdbVerif.C17.C17_remote_record_partial',
+    'EdbVerif.C17.C17_remote_record_weak', 'EdbVerif.C17.C17_remote_record_counterexample_status2',
+    'EdbVerif.C17.C17_remote_used_counterexample_failed_sync',
 ]
 
 KINDS = {'S': 'bytes', 'G': 'bytes', 'R': 'map', 'C': 'map', 'Y': 'map', 'P': 'state'}
@@ -828,7 +832,8 @@ def compare(ctx, spec, out, model_lines, stats):
 def _src_hash():
     """hash of the sources under test (they are read once, at the first rig)"""
     h = hashlib.sha1()
-    for fn in ('pool.py', 'worker.py', 'worker_proc.py', 'state.py', 'queue.py'):
+    for fn in ('pool.py', 'worker.py', 'worker_proc.py', 'state.py', 'queue.py', 'server.py',
+               'multitenant_worker.py'):
         h.update(open(f'{core.REPO}/edb/server/compiler_pool/{fn}', 'rb').read())
     return h.hexdigest()
 
@@ -837,7 +842,7 @@ def _src_hash():
 def run(ctx: core.Ctx):
     R = rig_mod()
     src0 = _src_hash()
-    proved = ctx.proof_stage(PROPS, ['EdbVerif.Props.C17', 'Driver.C17'], required=REQUIRED)
+    proved = ctx.proof_stage(PROPS, ['EdbVerif.Props.C17', 'Driver.C17', 'Driver.C17MT'], required=REQUIRED)
     ctx.log('proof stage:', 'ok' if proved else ctx.proof['broken'])
 
     loop = asyncio.new_event_loop()
@@ -850,11 +855,27 @@ def run(ctx: core.Ctx):
         results.append((spec, out, stream))
         return out
 
+    from lib import c17mt
+    import sys as _sys
+    this = _sys.modules[__name__]
+    results_mt = []
+    results_lmt = []
+
+    def execute_mt(spec, source, stream):
+        out = loop.run_until_complete(c17mt.run_history(loop, spec, source, this))
+        results_mt.append((spec, out, stream))
+        return out
+
     if ctx.replay:
         rp = json.load(open(ctx.replay))
         for f in rp['failures']:
             h = f.get('detail', {}).get('history') if isinstance(f.get('detail'), dict) else None
-            if h:
+            if h and h.get('lmt'):
+                results_lmt.append((h['spec'], loop.run_until_complete(
+                    c17mt.run_local_history(loop, h['spec'], h['steps'], this)), 'replay-lmt'))
+            elif h and h.get('mt'):
+                execute_mt(h['spec'], h['steps'], 'replay-mt')
+            elif h:
                 execute(h['spec'], h['steps'], 'replay')
     else:
         # 1. the counter-histories proved in Lean, replayed on the real code
@@ -869,7 +890,7 @@ def run(ctx: core.Ctx):
                           'got': sorted(got)}, no_input=True)
             # (a repaired witness that fails again is reported by the oracle under its own key)
         # 2. random histories
-        n_hist = ctx.budget(2100, 15000)
+        n_hist = ctx.budget(2000, 12000)
         for i in range(n_hist):
             rng = ctx.rng
             regime = ('nostatus2', 'noreturn', 'wild')[i % 3]
@@ -904,6 +925,52 @@ def run(ctx: core.Ctx):
                 n_ex += 1
         ctx.log(f'{n_ex} exhaustive histories (alphabet {len(alpha)}, length <= {maxlen}'
                 f'{"" if ctx.quick() else "; 10-letter alphabet at length 5"}) in {time.time() - t1:.1f}s')
+    # 4. the remote (three-tier) path: RemotePool -> MultiSchemaPool -> multitenant_worker
+    if not ctx.replay:
+        t3 = time.time()
+        for name, spec, steps, expect in c17mt.witness_specs():
+            out = execute_mt(spec, steps, 'mt-witness')
+            got = {k for k, _, _ in out.fails}
+            if not expect <= got:
+                ctx.fail(f'witness-not-reproduced:mt-{name}',
+                         'the Lean counter-history (remote path) does not fail on the real code any more',
+                         {'history': {'mt': True, 'spec': spec, 'steps': steps},
+                          'expected': sorted(expect), 'got': sorted(got)}, no_input=True)
+        n_mt = ctx.budget(600, 6000)
+        for i in range(n_mt):
+            rng = ctx.rng
+            regime = ('clean', 'noreturn', 'wild')[i % 3]
+            toks = Toks(R)
+            nw, ndbs, ncl = rng.choice([2, 3]), rng.choice([2, 3]), rng.choice([1, 2])
+            gen = c17mt.GenMT(rng, toks, regime, nw, ndbs, ncl)
+            spec = {'nworkers': nw, 'cache_size': rng.choice([1, 2]), 'regime': regime,
+                    'init': gen.init(), 'len': rng.choice([5, 15, 30, 50])}
+            execute_mt(spec, gen, 'mt-random:' + regime)
+        n_mx = 0
+        for spec, steps in c17mt.exhaustive(ctx.budget(4, 5)):
+            execute_mt(spec, steps, 'mt-exhaustive')
+            n_mx += 1
+        # 5. the in-process MultiTenantPool (oracle only, no model)
+        lspec, lsteps, lexpect = c17mt.local_witness()
+        lout = loop.run_until_complete(c17mt.run_local_history(loop, lspec, lsteps, this))
+        results_lmt.append((lspec, lout, 'lmt-witness'))
+        if not lexpect <= {k for k, _, _ in lout.fails}:
+            ctx.fail('witness-not-reproduced:lmt-eviction', 'the MultiTenantPool eviction history does not '
+                     'fail on the real code any more', {'expected': sorted(lexpect),
+                                                        'got': sorted(k for k, _, _ in lout.fails)}, no_input=True)
+        for i in range(ctx.budget(300, 3000)):
+            rng = ctx.rng
+            regime = ('clean', 'noreturn', 'wild')[i % 3]
+            toks = Toks(R)
+            nw = rng.choice([1, 2, 3])
+            gen = c17mt.GenMT(rng, toks, regime, nw, rng.choice([2, 3]), rng.choice([1, 2]))
+            gen.init()
+            spec = {'nworkers': nw, 'cache_size': rng.choice([1, 2]), 'regime': regime, 'lmt': True,
+                    'len': rng.choice([5, 15, 30, 50])}
+            results_lmt.append((spec, loop.run_until_complete(
+                c17mt.run_local_history(loop, spec, gen, this)), 'lmt-random:' + regime))
+        ctx.log(f'remote path: {n_mt} random + {n_mx} exhaustive histories on the three-tier rig '
+                f'in {time.time() - t3:.1f}s')
     loop.close()
     if _src_hash() != src0:
         # e.g. somebody's mutation test touched /repo while this run had half of the modules loaded
@@ -949,6 +1016,53 @@ def run(ctx: core.Ctx):
             hist = {'spec': dict(spec, tokens=spec_tokens(out.toks)),
                     'steps': out.steps[:(k + 1) if k is not None else None]}
             ctx.fail(key, what, dict(extra, history=hist))
+    # ---- remote path: model run, comparison, reporting
+    mt_lines = []
+    for spec, out, _ in results_mt:
+        mt_lines.extend(out.lines)
+    mt_stats, mt_streams, mt_keys = {}, {}, {}
+    mt_req, mt_noreturn = 0, 0
+    if mt_lines:
+        t4 = time.time()
+        mt_model = ctx.driver('C17MT', mt_lines)
+        if len(mt_model) != len(mt_lines):
+            raise core.Infra(f'driver C17MT returned {len(mt_model)} lines for {len(mt_lines)}')
+        ctx.log(f'{len(mt_lines)} lines through the Lean driver C17MT in {time.time() - t4:.1f}s')
+        pos = 0
+        for spec, out, stream in results_mt:
+            ml = mt_model[pos:pos + len(out.lines)]
+            pos += len(out.lines)
+            n_dis += c17mt.compare(ctx, spec, out, ml, mt_stats)
+            for k, v in out.stats.items():
+                mt_stats[k] = mt_stats.get(k, 0) + v
+            mt_streams[stream] = mt_streams.get(stream, 0) + 1
+            mt_req += len(out.steps)
+            mt_noreturn += 1 if out.noreturn_ok else 0
+            if len(out.steps) >= 2:
+                distinct.add(hashlib.sha1(('MT' + '\n'.join(out.lines)).encode()).digest())
+            for key, what, extra in out.fails:
+                mt_keys[key.split(':')[0]] = mt_keys.get(key.split(':')[0], 0) + 1
+                if ':' in key and mt_keys[key.split(':')[0]] > 10:
+                    continue
+                k = extra.get('step_index')
+                hist = {'mt': True,
+                        'spec': dict(spec, tokens={str(t): d for t, d in out.toks.desc.items()}),
+                        'steps': out.steps[:(k + 1) if k is not None else None]}
+                ctx.fail(key, what, dict(extra, history=hist))
+    # ---- in-process MultiTenantPool: oracle verdicts
+    lmt_stats, lmt_keys, lmt_req = {}, {}, 0
+    for spec, out, stream in results_lmt:
+        lmt_req += len(out.steps)
+        for k, v in out.stats.items():
+            lmt_stats[k] = lmt_stats.get(k, 0) + v
+        for key, what, extra in out.fails:
+            lmt_keys[key.split(':')[0]] = lmt_keys.get(key.split(':')[0], 0) + 1
+            if ':' in key and lmt_keys[key.split(':')[0]] > 10:
+                continue
+            k = extra.get('step_index')
+            hist = {'lmt': True, 'spec': dict(spec, tokens={str(t): d for t, d in out.toks.desc.items()}),
+                    'steps': out.steps[:(k + 1) if k is not None else None]}
+            ctx.fail(key, what, dict(extra, history=hist))
     if not proved:
         ctx.proof_broken_verdict()
 
@@ -956,8 +1070,24 @@ def run(ctx: core.Ctx):
     for spec, out, stream in results[:1] + results[len(results) // 2:len(results) // 2 + 1]:
         sample.append(f'[{stream}] ' + ' / '.join(out.lines[:4]))
     ctx.cov.update({
-        'evaluations': len(results),
-        'requests': n_req,
+        'evaluations': len(results) + len(results_mt) + len(results_lmt),
+        'requests': n_req + mt_req + lmt_req,
+        'multitenant_pool_in_process': {
+            'histories': len(results_lmt), 'requests': lmt_req, 'histogram': lmt_stats,
+            'oracle_keys_hit': lmt_keys,
+            'rule': 'real pool.MultiTenantPool + MultiTenantWorker over 1-3 multitenant_worker instances, 1-2 '
+                    'clients, cache size 1-2; oracle only (no Lean model for this variant)',
+        },
+        'remote_path': {
+            'histories': len(results_mt), 'requests': mt_req, 'streams': mt_streams,
+            'histories_satisfying_NoReturn': mt_noreturn,
+            'histogram': {k: v for k, v in sorted(mt_stats.items())},
+            'oracle_keys_hit': mt_keys,
+            'rule': 'real RemotePool (one per client) -> MultiSchemaPool -> 2-3 multitenant_worker instances; '
+                    '1-2 clients, 2-3 databases, cache size 1-2 (evictions), forced or queue-chosen worker; '
+                    'regimes clean / noreturn / wild; all words <= 4 (quick) / 5 (thorough) over '
+                    '{worker 0,1} x {db 0,1} x {same, new schema}; the 3 concrete histories of Props/C17.lean',
+        },
         'distinct_nontrivial': len(distinct),
         'rule': 'one evaluation = one request history executed on the real pool/worker rig and on the model; '
                 'non-trivial = at least 2 requests; distinct = distinct protocol text. Streams: the 9 concrete histories of Props/C17.lean (3 status-2 counter-histories, 6 regression witnesses of the repairs); random histories (2-3 workers, 2-3 dbs, length 5..80, regimes nostatus2 / '
